@@ -1,4 +1,5 @@
 import SciVerif.Lemmas.C08
+import SciVerif.Lemmas.C08b
 
 /-!
 # C08 — Measurement uncertainties propagate consistently and stay non-negative
@@ -259,6 +260,86 @@ theorem C08_exact (l r : Mag ℝ) (p : Rat) (m1 m2 : ℝ) (hl : l.error = none) 
   subst hl hr
   simp [Mag.add, Mag.sub, Mag.mul, Mag.div, Mag.pow, Mag.neg, Mag.convertLinear, sumErr, mulErr,
     divErr, powErr]
+
+/-! ### the same object on both sides -/
+
+/-- `a*a` (one object on both sides of `*`) is an ordinary product in the code: it obeys the
+    product rule, at least `2|a|da` — not the `**` rule `2·da`. -/
+theorem C08_self_product (a da : ℝ) (ha : 0 < a) (hda : 0 ≤ da) :
+    ∃ e, (Mag.mul ⟨a, some da⟩ ⟨a, some da⟩).error = some e ∧ 2 * |a| * da ≤ e := by
+  obtain ⟨e, he, hle⟩ := C08_first_order_mul a da a da ha ha hda hda
+  exact ⟨e, he, by linarith⟩
+
+/-! ### quantities: uncertainties in base dimensions (`Qty.baseMag` = value·f, error·f) -/
+
+section quantities
+open SciVerif.C06
+variable {ι : Type} [DecidableEq ι]
+
+/-- the constructor's folding step (units dropped when the dimensions vanish, factors folded into
+    the number) multiplies value and error by the same positive factor: the magnitude in base
+    dimensions is unchanged and so is the relative uncertainty. -/
+theorem C08_fold_keeps_uncertainty (env : ι → UnitInfo ℝ) (hpos : EnvPos env) (m : Mag ℝ) (b : BU ι) :
+    (Qty.new env m b).baseMag env = ⟨m.value * b.magnitude env, m.error.map (fun e => e * b.magnitude env)⟩ ∧
+    (m.value ≠ 0 → (Qty.new env m b).mag.rele = m.rele) := by
+  refine ⟨new_baseMag env hpos m b, ?_⟩
+  intro hv
+  unfold Qty.new
+  split
+  · simp only [Mag.rele]
+    rw [fold_error env hpos, fold_value]
+    set P := ((b.filter (fun p => !(unitDims env p.1 p.2).nodim)).map (F env)).prod with hP
+    have hPpos : 0 < P := by
+      rw [hP]; apply List.prod_pos
+      intro x hx
+      obtain ⟨p, _, rfl⟩ := List.mem_map.mp hx
+      exact F_pos env hpos p
+    have h3 : |m.value| ≠ 0 := abs_ne_zero.mpr hv
+    cases m.error with
+    | none => rfl
+    | some e =>
+      simp only [Option.map_some, absToRel, abs_real, abs_mul, abs_of_pos hPpos, Option.some.injEq]
+      field_simp
+  · rfl
+
+/-- sum / difference of quantities given in *different* units of one dimension: in base
+    dimensions the absolute error of the result is the sum of the operands' absolute errors,
+    i.e. in the left operand's units `err(a) + err(b)·f(b)/f(a)`. -/
+theorem C08_qty_sum (env : ι → UnitInfo ℝ) (hpos : EnvPos env) (l r : Qty ι ℝ)
+    (hd : (l.units.dims env).beq (r.units.dims env) = true) :
+    (∃ q, l.add env r = .ok q ∧
+      (q.baseMag env).error = sumErr (l.baseMag env).error (r.baseMag env).error) ∧
+    (∃ q, l.sub env r = .ok q ∧
+      (q.baseMag env).error = sumErr (l.baseMag env).error (r.baseMag env).error) := by
+  have hd' : (r.units.dims env).beq (l.units.dims env) = true := by rw [Dims.beq_comm]; exact hd
+  have hL : l.units.magnitude env ≠ 0 := (magnitude_pos env hpos _).ne'
+  obtain ⟨⟨lv, le⟩, lu⟩ := l
+  obtain ⟨⟨rv, re⟩, ru⟩ := r
+  simp only at hd hd' hL
+  constructor
+  · refine ⟨_, by simp [Qty.add, Qty.addsub, stdType, convert, hd, hd']; rfl, ?_⟩
+    rw [new_baseMag env hpos]
+    cases le <;> cases re <;> simp [Qty.baseMag, Mag.add, Mag.convertLinear, sumErr]
+    all_goals field_simp
+  · refine ⟨_, by simp [Qty.sub, Qty.addsub, stdType, convert, hd, hd']; rfl, ?_⟩
+    rw [new_baseMag env hpos]
+    cases le <;> cases re <;> simp [Qty.baseMag, Mag.sub, Mag.convertLinear, sumErr]
+    all_goals field_simp
+
+/-- product and quotient of quantities (whether or not their units cancel and get folded): the
+    magnitude in base dimensions has the relative uncertainty of the same operation on the bare
+    magnitudes — error and value are scaled by the same positive unit factor. -/
+theorem C08_qty_mul_div (env : ι → UnitInfo ℝ) (hpos : EnvPos env) (l r : Qty ι ℝ)
+    (hl : l.units.WF) (hr : r.units.WF) :
+    ((l.mul env r).baseMag env).error =
+      (l.mag.mul r.mag).error.map (fun e => e * (l.units.magnitude env * r.units.magnitude env)) ∧
+    ((l.div env r).baseMag env).error =
+      (l.mag.div r.mag).error.map (fun e => e * (l.units.magnitude env / r.units.magnitude env)) := by
+  constructor
+  · rw [Qty.mul, new_baseMag env hpos, (magnitude_addU env hpos _ _ hl hr).2]
+  · rw [Qty.div, new_baseMag env hpos, (magnitude_subU env hpos _ _ hl hr).2]
+
+end quantities
 
 /-! ### arrays: `np.max` over all elements only enlarges the error -/
 
